@@ -40,3 +40,9 @@ CLAIMS["C07"] = dict(
     text="For three trees covering all five types and every presence state (visible, conditionally hidden, promptless, n, empty, choice member, forced by set/select), every ordered sequence of up to 3 distinct lines of the rename alphabet (plain/inverted aliases of one bool, two aliases in both orders, duplicate old name, aliases of int/string/hex with and without `!`, undefined replacement, lowercase old name) and every configuration of the value domain, sdkconfig, header, CMake, JSON (kconfgen writers) and auto.conf are generated, parsed back into typed values and compared option by option and alias by alias (header aliases under C truthiness).",
     note="Quick tier takes all 1- and 2-line rename files plus all 3-line files over the bool alias lines; thorough all 3-line files.",
 )
+CLAIMS["C06"] = dict(
+    category="exploration",
+    technique="bounded exhaustive enumeration of numeric-option programs x malformed-input alphabet x 3 input routes x all condition/bound assignments on the real evaluator and writers; well-formedness, range and cross-format oracles",
+    text="Every program of type{int,hex,float} x range kind x default kind x indirect-set kind x prompt kind is driven with every input of a per-type alphabet containing malformed classes (underscores, blanks, signs, other bases, huge, non-finite, empty) through Symbol.set_value, an sdkconfig line and kconfserver.handle_set, in every assignment of the condition/bound options; for every option the exposed value must be well-formed for its type, empty only if nothing provides a value, inside the first active range, and header/CMake/JSON/sdkconfig must render the same number without raising.",
+    note="Exceptions escaping the server handler are counted, not alarmed (C15 owns them); inverted ranges (low > high) are not generated.",
+)
